@@ -6,6 +6,7 @@ mkdir -p /verif/.work/logs
 rc_all=0
 for id in $IDS; do
   t0=$(date +%s)
+  mkdir -p /verif/.work/logs
   bash /verif/bin/check $id --tier $TIER > /verif/.work/logs/$id.$TIER.log 2>&1
   rc=$?
   t1=$(date +%s)
